@@ -19,8 +19,8 @@ ASSUMPTIONS = [
     "hierarchy: A (dataclass) > B (decorated dataclass) > E (decorated); A > C (undecorated, hand-written __init__); "
     "D unrelated (hand-written __init__); G(B, C) decorated, the bottom of a diamond",
 ]
-BOUNDS = {"quick": dict(history_length=4, declared_variables=2, ops=20, classes="A>B>E, A>C, D, diamond G(B,C)"),
-          "thorough": dict(history_length=5, declared_variables=2, ops=20)}
+BOUNDS = {"quick": dict(history_length=4, declared_variables=2, ops=21, classes="A>B>E, A>C, D, diamond G(B,C); variables over A, B, D and the undecorated C"),
+          "thorough": dict(history_length=5, declared_variables=2, ops=21)}
 LIMITS = {"quick": dict(max_paths=400000, max_wall=500), "thorough": dict(max_paths=5000000, max_wall=3300)}
 FIDELITY = {"quick": "first", "thorough": "first"}
 WALL_BUDGET = {"quick": 560, "thorough": 3500}
@@ -82,7 +82,7 @@ class Src:
 
 CLASSES = {"A": A, "B": B, "C": C, "D": D, "E": E, "G": G}
 OPS = ["C_A_kw", "C_A_pos", "C_A_def", "C_B", "C_C", "C_D", "C_E", "C_G", "SYM_A", "SYM_B", "SYM_D", "SYM_EXC", "INFER_A", "INFER_B", "CLEAR",
-       "DECL_A", "DECL_B", "DECL_D", "QUERY0", "QUERY1"]
+       "DECL_A", "DECL_B", "DECL_C", "DECL_D", "QUERY0", "QUERY1"]
 
 
 class C14(Case):
